@@ -27,10 +27,10 @@ def configs(tier):
     bud = 200 if q else 5400
     for bc in ('per', 'sym'):
         for fl in ('rusanov', 'hll'):
-            out.append({'model': 'shallowwater', 'flux': fl, 'bc': bc, 'timeout_ms': max(to, 60000) if fl == 'rusanov' else to, 'budget_s': max(bud, 290), 'lemma': not q})
+            out.append({'model': 'shallowwater', 'flux': fl, 'bc': bc, 'timeout_ms': max(to, 60000) if fl == 'rusanov' else to, 'budget_s': max(bud, 290), 'lemma': not q, 'guided_tries': 3000, 'guided_min_size': 5})
         for fl in ('hlle', 'hllc'):
             for g in (['7/5'] if q else ['7/5', '2']):
-                out.append({'model': 'euler1d', 'flux': fl, 'bc': bc, 'gamma': g, 'timeout_ms': to, 'budget_s': bud, 'lemma': not q})
+                out.append({'model': 'euler1d', 'flux': fl, 'bc': bc, 'gamma': g, 'timeout_ms': to, 'budget_s': bud, 'lemma': not q, 'guided_tries': 3000, 'guided_min_size': 5})
     return out
 
 
@@ -44,6 +44,14 @@ def harness(cfg, B):
     bc = {'type': cfg['bc']}
     rhs = fd.modeldisc.fvm(model, mesh, fd.xnum.extrapol1(), numflux=cfg['flux'], bcL=bc, bcR=bc)
     prim, cons = cm.make_state(B, mname, model, n)
+    # the search for violations samples strong jumps and high Mach / Froude numbers as well
+    for nm in list(B.dom):
+        if nm.startswith('wu'):
+            B.dom[nm] = (-4.0, 4.0)
+        elif nm.startswith('wc'):
+            B.dom[nm] = (0.05, 2.0)
+        elif nm.startswith('wa'):
+            B.dom[nm] = (0.05, 3.0)
     f = fd.field.fdata(model, mesh, [c.copy() for c in cons])
     cfl = B.pos('cfl', 0.05, 0.5)
     B.assume(cfl <= B.const(Fraction(1, 2)))
